@@ -62,12 +62,26 @@ def check_driver_loop(cx: Cx, fn, model_from: List[str], rule='R-GUARD'):
     seen_exec = 0
     ok = True
     model_terms = set()
-    for p in cx.walker.paths(fn, WalkOptions(unroll=2, callee_raises=False)):
+    # helpers (public or private) through which the stepping was factored out are walked inline
+    reach = set()
+    for k, calls in cx.effects.calls.items():
+        if any(any(t.qualname in (mexec, CORE + 'SystemManager.execute_systems') for t in c.data.get('targets', [])) for c in calls):
+            reach.add(k)
+    changed = True
+    while changed:
+        changed = False
+        for k, cs in cx.effects.callees.items():
+            if k not in reach and any(c in reach for c in cs) and not k.startswith(CORE + 'SystemManager'):
+                reach.add(k)
+                changed = True
+    inl = frozenset({q for q in reach if q not in (fn.qualname, mexec) and '#' not in q}) | {'<private>'}
+    for p in cx.walker.paths(fn, WalkOptions(unroll=2, callee_raises=False, inline_full=inl,
+                                             no_full_inline=frozenset({'_run_model_for_search', '_run_model_for_batch', '_score_model_for_search'}))):
         evs = p.events
         for i, e in enumerate(evs):
             if e.kind == 'assign' and e.data.get('name') == 'model':
                 model_terms.add(e.data.get('value'))
-            is_exec = e.kind == 'call' and (any(t.qualname == mexec for t in e.data.get('targets', [])) or
+            is_exec = e.kind == 'call' and not e.data.get('full_inline') and (any(t.qualname in (mexec, CORE + 'SystemManager.execute_systems') for t in e.data.get('targets', [])) or
                                             (e.data.get('target_kind') == 'unknown' and e.data.get('callee_name') == '.execute'
                                              and e.data.get('recv') in model_terms))
             if is_exec:
